@@ -29,7 +29,8 @@ def negate_mixed(ns, node, negated=True):
 
 def spec_negation_sites(spec, negated=False, acc=None):
     """spec-level: list of spec nodes that get negated when the model is *constructed*
-    (Not argument, Imply condition).  XNor negates only helper AtLeast(1,..)/AtMost(1,..) nodes."""
+    (Not argument, Imply condition).  XNor negates its helper AtLeast(1, arguments) node, and that negation is pushed
+    inwards into every compound argument, so each compound argument of an XNor is a negation site as well."""
     acc = [] if acc is None else acc
     t = spec["t"]
     if t == "var":
@@ -38,6 +39,8 @@ def spec_negation_sites(spec, negated=False, acc=None):
         acc.append(spec["ch"][0])
     if t == "Imply":
         acc.append(spec["ch"][0])
+    if t == "XNor":
+        acc.extend(c for c in spec["ch"] if c["t"] != "var")
     for c in spec["ch"]:
         spec_negation_sites(c, False, acc)
     return acc
